@@ -266,6 +266,9 @@ pub struct World {
     pub last_poll_start: u64,
     pub task_wakes_total: u64,
     pub env_wake_depth: u32,
+    /// (task waker id, child): when that task waker is cloned for the first time, the stored
+    /// waker of the child is invoked - a wake landing while the collection registers its task waker
+    pub tw_hook: Option<(usize, u32)>,
     // slot occupancy (RawWaker data pointer -> child)
     pub occupant: Vec<(usize, u32)>,
     // flags
@@ -320,6 +323,7 @@ impl World {
             last_poll_start: 0,
             task_wakes_total: 0,
             env_wake_depth: 0,
+            tw_hook: None,
             occupant: Vec::new(),
             draining: false,
             dormant: false,
@@ -597,6 +601,22 @@ pub fn receive_tok(t: Tok, ctx: &str) -> Option<(u32, u32, bool)> {
 static TASK_VTABLE: RawWakerVTable = RawWakerVTable::new(tw_clone, tw_wake, tw_wake, tw_drop);
 
 unsafe fn tw_clone(d: *const ()) -> RawWaker {
+    let hook = w(|w| match w.tw_hook {
+        Some((id, c)) if id == d as usize => {
+            w.tw_hook = None;
+            Some(c)
+        }
+        _ => None,
+    });
+    if let Some(c) = hook {
+        callback(|| {
+            w(|w| w.logf(|| format!("    (task waker being cloned: the waker of child {} is invoked right now)", c)));
+            if let Some(wk) = clone_child_waker(c) {
+                invoke_child_waker(&wk);
+                in_crate(|| drop(wk));
+            }
+        });
+    }
     RawWaker::new(d, &TASK_VTABLE)
 }
 unsafe fn tw_wake(d: *const ()) {
